@@ -35,6 +35,8 @@ def scenario_from(bad):
                       'small_file_cap': fo[1] if fo else model.get('oC', 1 << 20)},
           'follow_up': any('follow-up' in p for p in bad.get('problems', [])) or bool(bad.get('fired') and bad['fired'][3] in ('stop', 'empty_stop')),
           'mirsym': {k: v for k, v in bad.items() if k in ('problems', 'msg', 'where', 'result')}}
+    if case.get('validate_after'):
+        sc['validate_after'] = True
     if case.get('prior') == 'same':
         sc['prior'] = True
     elif case.get('prior') in ('built', 'changed'):
@@ -113,11 +115,14 @@ def reproduced(kind, out, bad):
     if kind in ('existing-file-changed', 'path-written-twice'):
         return any(o[0] == 'rewrite' for o in out.get('ops', []))
     if kind == 'validate-false-alarm':
-        return True
+        return bool(out.get('validate_errors')) or out.get('validate_ok') is False
     if kind == 'resume-does-not-reuse-entries':
-        return True      # decided by BackupStats.unmodified_files of the follow-up run in the model; native driver shows the stats
+        # "N unchanged files are recorded in the (stitched) previous version but only K were reused"
+        m = re.search(r'(\d+) unchanged files are recorded', ' '.join(bad.get('problems', [])))
+        return bool(m) and out.get('follow_up_unmodified') is not None and out['follow_up_unmodified'] < int(m.group(1))
     if kind == 'unchanged-tree-stored-again':
-        return True      # decided by the write trace; the native driver reports written_blocks for information
+        # a data block written by the run under test (or its follow-up) although the tree is unchanged
+        return any(o[0] == 'write' and o[1].startswith('d/') for o in out.get('ops', [])) or bool(out.get('follow_up_written_blocks'))
     if kind == 'follow-up-backup-fails':
         return not out.get('follow_up_ok', True) or bool(out.get('follow_up_errors')) or bool(out.get('follow_up_mismatches')) \
             or not out.get('follow_up_restore_ok', True)
